@@ -14,6 +14,24 @@ class Unsupported(Exception):
     pass
 
 
+SAFE_METHODS = {'get', 'startswith', 'endswith', 'lower', 'upper', 'strip', 'items', 'keys', 'values', 'find', 'split',
+                'join', 'index', 'count', 'append', 'extend', 'translate', 'replace', 'isupper', 'islower', 'isalpha'}
+SAFE_RECEIVERS = (str, dict, tuple, list, frozenset)
+SAFE_BUILTINS = {'len': len, 'bool': bool, 'tuple': tuple, 'list': list, 'min': min, 'max': max, 'abs': abs, 'int': int,
+                 'isinstance': isinstance, 'str': str, 'ord': ord, 'chr': chr, 'range': range, 'dict': dict,
+                 'enumerate': enumerate, 'zip': zip, 'set': set, 'frozenset': frozenset, 'sorted': sorted}
+CATCHABLE = {'KeyError': KeyError, 'IndexError': IndexError, 'ValueError': ValueError, 'TypeError': TypeError,
+             'AttributeError': AttributeError, 'Exception': Exception}
+
+
+class _Break(Exception):
+    pass
+
+
+class _Continue(Exception):
+    pass
+
+
 class Return(Exception):
     def __init__(self, value):
         self.value = value
@@ -33,6 +51,7 @@ class MiniEval:
         self.env = dict(env)
         self.consts = consts          # callable(name) -> value for module-level constants (or raises KeyError)
         self.calls = calls or {}      # textual callee name -> python callable(args) for whitelisted pure calls
+        self.loop_cap = 64
 
     # ---- expressions ---------------------------------------------------------------------------------
     def ev(self, e: ast.AST):
@@ -102,13 +121,64 @@ class MiniEval:
         if isinstance(e, ast.Call):
             name = ast.unparse(e.func)
             if name in self.calls:
-                return self.calls[name](*[self.ev(a) for a in e.args])
+                kw = {k.arg: self.ev(k.value) for k in e.keywords if k.arg}
+                return self.calls[name](*[self.ev(a) for a in e.args], **kw)
+            if isinstance(e.func, ast.Attribute) and e.func.attr in SAFE_METHODS:
+                recv = self.ev(e.func.value)
+                if isinstance(recv, SAFE_RECEIVERS):
+                    return getattr(recv, e.func.attr)(*[self.ev(a) for a in e.args])
+            if isinstance(e.func, ast.Name) and e.func.id in SAFE_BUILTINS:
+                return SAFE_BUILTINS[e.func.id](*[self.ev(a) for a in e.args])
             raise Unsupported(f'call {name}')
         if isinstance(e, ast.Subscript):
             v = self.ev(e.value)
+            if isinstance(e.slice, ast.Slice):
+                lo = self.ev(e.slice.lower) if e.slice.lower is not None else None
+                hi = self.ev(e.slice.upper) if e.slice.upper is not None else None
+                return v[lo:hi]
             i = self.ev(e.slice)
+            if isinstance(v, Sym):
+                raise Unsupported('subscript of an opaque value')
             return v[i]
+        if isinstance(e, (ast.ListComp, ast.GeneratorExp, ast.SetComp, ast.DictComp)):
+            return self.comp(e)
+        if isinstance(e, ast.Dict):
+            return {self.ev(k): self.ev(v) for k, v in zip(e.keys, e.values)}
+        if isinstance(e, ast.Set):
+            return {self.ev(x) for x in e.elts}
+        if isinstance(e, ast.JoinedStr):
+            out = []
+            for v in e.values:
+                if isinstance(v, ast.Constant):
+                    out.append(v.value)
+                else:
+                    raise Unsupported('f-string with interpolation')
+            return ''.join(out)
         raise Unsupported(type(e).__name__)
+
+    def comp(self, e):
+        results = []
+        saved = dict(self.env)
+
+        def rec(i):
+            if i == len(e.generators):
+                if isinstance(e, ast.DictComp):
+                    results.append((self.ev(e.key), self.ev(e.value)))
+                else:
+                    results.append(self.ev(e.elt))
+                return
+            g = e.generators[i]
+            for item in list(self.ev(g.iter)):
+                self.assign(g.target, item)
+                if all(self.truth(self.ev(c)) for c in g.ifs):
+                    rec(i + 1)
+        rec(0)
+        self.env = saved
+        if isinstance(e, ast.DictComp):
+            return dict(results)
+        if isinstance(e, ast.SetComp):
+            return set(results)
+        return results
 
     def truth(self, v):
         if isinstance(v, Sym):
@@ -178,6 +248,69 @@ class MiniEval:
             return
         if isinstance(st, ast.Return):
             raise Return(self.ev(st.value) if st.value is not None else None)
+        if isinstance(st, ast.For):
+            broke = False
+            for item in list(self.ev(st.iter)):
+                self.assign(st.target, item)
+                try:
+                    self.block(st.body)
+                except _Continue:
+                    continue
+                except _Break:
+                    broke = True
+                    break
+            if not broke:
+                self.block(st.orelse)
+            return
+        if isinstance(st, ast.While):
+            n = 0
+            broke = False
+            while self.truth(self.ev(st.test)):
+                n += 1
+                if n > self.loop_cap:
+                    raise Unsupported('loop bound exceeded')
+                try:
+                    self.block(st.body)
+                except _Continue:
+                    continue
+                except _Break:
+                    broke = True
+                    break
+            if not broke:
+                self.block(st.orelse)
+            return
+        if isinstance(st, ast.Try):
+            try:
+                self.block(st.body)
+            except (Return, _Break, _Continue, Unsupported):
+                raise
+            except Exception as exc:  # noqa: BLE001 - exceptions of the interpreted fragment
+                for h in st.handlers:
+                    names = []
+                    if h.type is None:
+                        names = ['Exception']
+                    elif isinstance(h.type, ast.Tuple):
+                        names = [ast.unparse(x) for x in h.type.elts]
+                    else:
+                        names = [ast.unparse(h.type)]
+                    if any(n in CATCHABLE and isinstance(exc, CATCHABLE[n]) for n in names):
+                        self.block(h.body)
+                        break
+                else:
+                    raise
+            else:
+                self.block(st.orelse)
+            finally:
+                pass
+            self.block(st.finalbody)
+            return
+        if isinstance(st, ast.Break):
+            raise _Break()
+        if isinstance(st, ast.Continue):
+            raise _Continue()
+        if isinstance(st, ast.Expr):
+            self.ev(st.value)
+            return
         if isinstance(st, ast.Pass):
             return
         if isinstance(st, (ast.FunctionDef,)):
